@@ -100,6 +100,8 @@ def legal_dir(ident, level):
 def level4_class(name, exc):
     if type(exc).__name__ != 'PyCdlibInvalidInput':
         return None
+    if name in ('\x00', '\x01'):
+        return 'reserved-byte'
     if ';' in name:
         return 'semicolon'
     if len(name.encode('utf-8')) > 180:
